@@ -13,7 +13,7 @@ namespace Pyrtma.Mgr
 /-- the per-round event lists the driver computes for the model — each round is run on the state with the log emptied —
     are the model's observation: what each round appends to the cumulative log of `run` (`step_reset`: the model never
     reads its log); its final state is that of `run`, up to the log -/
-theorem modelRun_obs (cfg : Cfg) (rs : List Round) :
+theorem modelRun_obsM (cfg : Cfg) (rs : List Round) :
     (Pyrtma.Drv.Manager.modelRun cfg rs).1 = modelObs cfg rs ∧
     ∃ o, (Pyrtma.Drv.Manager.modelRun cfg rs).2 = setOut (run cfg rs) o := by
   have key : ∀ (rs : List Round) (acc : List (List Ev)) (sC : State) (o0 : List Ev), ∃ o',
@@ -45,18 +45,18 @@ theorem modelRun_obs (cfg : Cfg) (rs : List Round) :
 
 /-- **The model meets the Spec, for the proved properties** — in the driver's terms: the verdict `Spec.runSpec` computes
 from a well-formed history and the events the driver's `modelRun` produces for it has no entry for a property in
-`proven` (for C05: on histories whose frames carry their serial numbers in processing order, `IncRounds`). -/
+`provenCore` (for C05: on histories whose frames carry their serial numbers in processing order, `IncRounds`). -/
 theorem spec_passes_on_model {cfg : Cfg} (ok : CfgOK cfg) (hfuel : cfg.fuel = 0) (hperm : OrdPerm cfg)
     (hmt : cfg.mtClosed ≠ cfg.allTypes) (rs : List Round)
-    (hwf : RoundsWF rs) (p : String) (hp : p ∈ proven) (hinc : p = "C05" → IncRounds 0 rs) :
+    (hwf : RoundsWF rs) (p : String) (hp : p ∈ provenCore) (hinc : p = "C05" → IncRounds 0 rs) :
     (Spec.runSpec cfg rs (Pyrtma.Drv.Manager.modelRun cfg rs).1 none).errs.filter (·.1 == p) = [] := by
-  rw [(modelRun_obs cfg rs).1]
-  exact (Spec.noErr_iff_filter p _).mp (model_meets_spec_proven ok hfuel hperm hmt rs hwf p hp hinc)
+  rw [(modelRun_obsM cfg rs).1]
+  exact (Spec.noErr_iff_filter p _).mp (model_meets_spec_core ok hfuel hperm hmt rs hwf p hp hinc)
 
 /-- the driver's verdict line for such a property is `ok` -/
 theorem checkAll_ok_on_model {cfg : Cfg} (ok : CfgOK cfg) (hfuel : cfg.fuel = 0) (hperm : OrdPerm cfg)
     (hmt : cfg.mtClosed ≠ cfg.allTypes) (rs : List Round)
-    (hwf : RoundsWF rs) (p : String) (hp : p ∈ proven) (hinc : p = "C05" → IncRounds 0 rs) :
+    (hwf : RoundsWF rs) (p : String) (hp : p ∈ provenCore) (hinc : p = "C05" → IncRounds 0 rs) :
     (Spec.runSpec cfg rs (Pyrtma.Drv.Manager.modelRun cfg rs).1 none).errs.find? (·.1 == p) = none := by
   have h := spec_passes_on_model ok hfuel hperm hmt rs hwf p hp hinc
   rw [List.find?_eq_none]
